@@ -7,6 +7,7 @@ import RQ.Model.View
 import RQ.Props.C20
 import Mathlib.Tactic.SplitIfs
 import Mathlib.Tactic.Linarith
+import RQ.Lemmas.WorldB
 namespace RQ.Props.C07
 open RQ.Q
 
@@ -329,5 +330,18 @@ example : let a : Bar := ⟨20200106, 10, 11, 12, 9, 1000, 10500, 11, 9⟩
           let b : Bar := ⟨20200106, 10, 9.5, 10, 9, 1000, 10500, 11, 9⟩
           auctionBar srcAuctionFields a = auctionBar srcAuctionFields b ∧ auctionBar ["open", "close"] a ≠ auctionBar ["open", "close"] b := by
   decide +kernel
+
+
+/-! ### whole runs of the composed world (`RQ/Model/World.lean`) -/
+
+/-- **no look-ahead in the trading core**: the composed world receives the market table of a day with that day's first event and
+nothing earlier.  Whatever follows a prefix of the inputs — later calls, later days, later market tables — the state after the prefix
+and everything published during it are the same: the past of a run is a function of the past of its inputs.  (The correspondence
+check shows that the real system, which has the whole bundle at hand, behaves on every day exactly like this function.) -/
+theorem world_past_independent_of_future (w : World) (past future future' : List WIn) :
+    (w.run (past ++ future)).2.take ((w.run past).2.length) = (w.run past).2 ∧
+    (w.run (past ++ future')).2.take ((w.run past).2.length) = (w.run (past ++ future)).2.take ((w.run past).2.length) := by
+  rw [RQ.Lemmas.WorldB.run_append, RQ.Lemmas.WorldB.run_append]
+  simp
 
 end RQ.Props.C07
